@@ -219,7 +219,7 @@ def run(prop, tier, seed, replay, jobs):
     print(f'[{prop}] tier={tier} seed={seed} cases={M["n_cases"]} {M["statuses"]} nontrivial={nontrivial} wall={wall:.1f}s')
     print(f'[{prop}] monitors: {mon}')
     for (p_, key), k in matched.items():
-        print(f'KNOWN-FINDING: property={p_} {key}: {k.get("what", "")}')
+        print(f"KNOWN-FINDING: property={p_} {key}: {(k.get('line') or k.get('what', ''))[:220]}")
     for e in M['errors'][:3]:
         print(f'[{prop}] HARNESS-ERROR case={json.dumps(e["case"])[:300]}\n{e["tb"]}')
     if verdict == 'violated':
